@@ -35,10 +35,12 @@ def _worker(args):
     try:
         h = [x for x in api.HARNESSES[prop] if x.ident == ident][0]
         t0 = time.time()
-        if h.kind == "data":
+        if h.kind in ("data", "lemma"):
             st, v = run.run_concrete(h, None)
-            obs = [{"name": "%s.%s" % (h.ident, n), "instances": 1, "status": "discharged", "seconds": 0.0, "rlimit": 0,
-                    "backend": ["cpython"], "havoc": False, "cex": None, "detail": "data obligation (concrete evaluation)"}
+            bk, secs = getattr(v, "backends", {}), getattr(v, "seconds", {})
+            obs = [{"name": "%s.%s" % (h.ident, n), "instances": 1, "status": "discharged", "seconds": secs.get(n, 0.0), "rlimit": 0,
+                    "backend": [bk.get(n, "cpython")], "havoc": False, "cex": None,
+                    "detail": "accepted by the Lean kernel" if bk.get(n) == "lean" else "data obligation (concrete evaluation)"}
                    for n in dict.fromkeys(v.checked)]
             for n, d in v.failed:
                 for o in obs:
@@ -49,7 +51,7 @@ def _worker(args):
                 if o["status"] == "failed":
                     o["cex"]["replay_status"] = "failed"
                     o["cex"]["replay_failed"] = [o["name"]]
-            out["symbolic"] = {"harness": h.ident, "kind": "data", "paths": 1, "obligations": obs, "unsupported": [],
+            out["symbolic"] = {"harness": h.ident, "kind": "data" if h.kind == "data" else "unbounded", "paths": 1, "obligations": obs, "unsupported": [],
                                "error": (getattr(v, "tb", None) or getattr(v, "error", None) or st) if st not in ("ok", "failed") else None, "notes": list(h.assumptions),
                                "interpreted": {}, "seconds": time.time() - t0, "functions": h.functions}
             out["concrete"] = None
